@@ -25,6 +25,29 @@ from harness.core import pipeline, env
 
 PROP_ID = "C16"
 ANCHOR_RANGES = [("jsonrpclib/threadpool.py", 51, 124), ("jsonrpclib/threadpool.py", 127, 240)]
+TRUSTED = [
+    "controlled scheduler harness/sched (cooperative threading shims, conformance-tested against the real classes by harness.sched.selftest); "
+    "threading.Event / threading.Lock are atomic operations with their documented blocking/timeout behaviour",
+    "granularity: one step = one source line of EventData / FutureResult that reads or writes a shared field, or one Event/Lock operation "
+    "(statement-text table LINE_TABLE in harness/props/c16.py, fail-closed); pre-emption inside a source line is not explored",
+    "ghost linearisation: 'owed a call' is defined by the order in which set_callback() calls and execute() acquire the future's lock (hpre/hpost/hdone)",
+]
+ASSUMPTIONS = ["the task body and the callbacks terminate", "callbacks raise only Exception subclasses (BaseException is not caught by the code, as written)",
+               "one execute() per FutureResult (as ThreadPool uses it)"]
+RULE = ("programs: one executor (task returns an object / returns None / raises), 0-4 registrar threads each calling set_callback once with a "
+        "callback that returns / raises / has the wrong arity, 0-3 observer threads calling done() / result(timeout) / result(); "
+        "ALL interleavings of the listed small programs are enumerated on the real code (every schedule, or every distinct shared state "
+        "with partial-order pruning), plus seeded random schedules of larger programs; model and implementation compared after EVERY step "
+        "(label executed, event/data/exception/lock owner/completed/callback/extra) and on the notification log, the logged errors, how "
+        "execute() ended and what each observer got. Non-trivial: at least one registrar or observer; distinct by (program, schedule).")
+EXHAUSTIVE = ("every interleaving, at model granularity, of: executor x one registrar (3 bodies x 3 callback kinds); executor x one observer "
+              "(3 x 3); and every reachable shared state of executor + two registrars / registrar + observer for the listed programs")
+MANIFEST_ENTRY = {
+    "text": "Theorems (Coq, closed under the global context) for EVERY program (task outcome, any number of registrar and observer threads, returning / raising / ill-typed callbacks) and EVERY schedule of a line-granularity model of EventData + FutureResult: before the task finishes done() is False and result(timeout) raises OSError; once done() can be True the outcome is stored (data before event) and every later result()/done() gives the final outcome, the same exception object for a raising task; when all calls have returned each registration was invoked exactly once iff owed (in force at completion, or made after it), with (result, exception, its own extra), never twice and never before completion in any intermediate state; a raising or ill-typed callback is logged and changes neither the stored outcome nor how execute() ends. The model is driven in lock-step with the real code under a controlled scheduler over ALL interleavings of the small programs on every run.",
+    "note": "Proved for ALL schedules about Model/Future.v (11 executor labels, 7 registrar labels, 5 observer labels, the future's lock). Modelled, not verified: threading.Event / Lock as atomic operations, CPython's atomicity of one source line, one execute() per future. 'Owed' follows the order of lock acquisitions (set semantics of set_callback, DESIGN.md 4/C16). The pre-fix code (finding F10, fixed in /repo) is modelled in Examples/C16_examples.v with its refutation witnesses (callback called twice / stale extra).",
+    "technique": "Coq proof of invariants over all schedules of a line-granularity interleaving model + exhaustive lock-step correspondence under a controlled scheduler + property oracle",
+    "design_ref": "DESIGN.md 4/C16",
+}
 
 TIMEOUT = 5.0
 
